@@ -4,7 +4,7 @@ use super::Ctx;
 use crate::{
     adversary::{self, Adversary, CertKey, CertVariant},
     runner::{self, Report, RunCfg, ScenarioResult},
-    world::{self, peer_id_of_key, pid_hex, NodeCfg, World},
+    world::{peer_id_of_key, pid_hex, NodeCfg, World},
 };
 use anemo::types::PeerEvent;
 use rand::{rngs::StdRng, seq::SliceRandom, Rng, SeedableRng};
@@ -186,6 +186,103 @@ pub fn scenario(idx: usize, seed: u64) -> ScenarioResult {
             }
         }
         }
+        // reconfiguration: one private key serves first {p, q} and then only {p} (restart at the same
+        // address, restart at another address, or a second live endpoint holding the same key).  An
+        // adversary that the first configuration legitimately admitted with a certificate for q keeps
+        // its TLS session store and comes back claiming p: the second configuration never verified
+        // any certificate of this party, and q is not a name it accepts.
+        let mut reconf = [0u64; 5]; // phases, tickets stored, tickets offered back, skipped, legit re-admitted
+        {
+            let mode = rng.gen_range(0..3u8);
+            let mut pq: Vec<&str> = fam.clone();
+            pq.shuffle(&mut rng);
+            let (p, q, r3) = (pq[0], pq[1], pq[2]);
+            let kk = w.gen_key();
+            let kz = w.gen_key();
+            let z = peer_id_of_key(&kz);
+            let mut ca = NodeCfg::new(kk);
+            ca.name = p.to_string();
+            ca.alt_name = Some(q.to_string());
+            ca.config.shutdown_idle_timeout_ms = Some(200);
+            let store = adversary::CountingSessionStore::new();
+            let cfg_q = adversary::client_config_with_store(Some(CertKey::honest(kz, q)), Some(store.clone()));
+            match w.start_node(ca) {
+                Err(_) => reconf[3] += 1,
+                Ok(la) => {
+                    let la_addr = la.addr;
+                    let r1 = adv.dial_with_config(la_addr, p, cfg_q.clone(), Duration::from_secs(2)).await;
+                    tokio::time::sleep(Duration::from_millis(100)).await;
+                    let first_ok = r1.is_ok();
+                    trace.push(format!("reconfiguration(mode {mode}): adversary hello={p:?} cert={q:?} -> first configuration [{p:?},{q:?}]: admitted={first_ok}"));
+                    if !first_ok {
+                        problems.push(format!("adversarial dialer claiming {p:?} with a certificate for {q:?} at a listener accepting [{p:?}, {q:?}]: refused, the model says admitted"));
+                    }
+                    if let Ok(c) = r1 {
+                        c.close(0u32.into(), b"");
+                    }
+                    let _ = la.net.disconnect(z);
+                    tokio::time::sleep(Duration::from_millis(50)).await;
+                    let la_keep = if mode < 2 {
+                        let _ = tokio::time::timeout(Duration::from_secs(5), la.net.shutdown()).await;
+                        drop(la);
+                        tokio::time::sleep(Duration::from_millis(300)).await;
+                        None
+                    } else {
+                        Some(la)
+                    };
+                    let mut cb = NodeCfg::new(kk);
+                    cb.name = p.to_string();
+                    cb.alt_name = if rng.gen_bool(0.5) { Some(r3.to_string()) } else { None };
+                    if mode == 0 {
+                        cb.bind = Some(la_addr);
+                    }
+                    let accb = accepted(&cb.name, &cb.alt_name);
+                    match (first_ok, w.start_node(cb)) {
+                        (true, Ok(lb)) => {
+                            reconf[0] += 1;
+                            reconf[1] += store.stored();
+                            let evb = w.log.lock().events.get(&lb.idx).map(|v| v.len()).unwrap_or(0);
+                            let off0 = store.offered();
+                            let r2 = adv.dial_with_config(lb.addr, p, cfg_q.clone(), Duration::from_secs(2)).await;
+                            tokio::time::sleep(Duration::from_millis(50)).await;
+                            reconf[2] += store.offered() - off0;
+                            let listed = lb.net.peers().contains(&z);
+                            let announced = w.log.lock().events.get(&lb.idx).map(|v| v[evb.min(v.len())..].iter().any(|e| matches!(&e.ev, PeerEvent::NewPeer(x) if *x == z))).unwrap_or(false);
+                            trace.push(format!("reconfiguration(mode {mode}): same adversary + kept TLS session store ({} tickets stored, {} offered back) hello={p:?} cert={q:?} -> second configuration {accb:?}: admitted={} listed={listed} announced={announced} (model false){}", store.stored(), store.offered(), r2.is_ok(), r2.as_ref().err().map(|e| format!(" [{e}]")).unwrap_or_default()));
+                            if std::env::var("VERIF_DEBUG").is_ok() {
+                                eprintln!("{}", trace.last().unwrap());
+                            }
+                            if r2.is_ok() || listed || announced {
+                                problems.push(format!(
+                                    "a dialer whose certificate is valid only for {q:?} (claiming {p:?}) was admitted by a listener accepting {accb:?} after the same private key had served [{p:?}, {q:?}] (mode {mode}: 0 restart same address, 1 restart elsewhere, 2 second live endpoint; TLS session store kept: {} tickets stored, {} offered back): admitted={}, listed={listed}, announced={announced}",
+                                    store.stored(), store.offered(), r2.is_ok()
+                                ));
+                            }
+                            if let Ok(c) = r2 {
+                                c.close(0u32.into(), b"");
+                            }
+                            let _ = lb.net.disconnect(z);
+                            // the same party with a certificate the second configuration accepts, stale
+                            // tickets still in its store: admitted (a stale ticket costs nothing)
+                            let r3 = adv.dial_with_config(lb.addr, p, adversary::client_config_with_store(Some(CertKey::honest(kz, p)), Some(store.clone())), Duration::from_secs(2)).await;
+                            tokio::time::sleep(Duration::from_millis(50)).await;
+                            trace.push(format!("reconfiguration: same adversary hello={p:?} cert={p:?} -> second configuration: admitted={} (model true)", r3.is_ok()));
+                            match r3 {
+                                Ok(c) => {
+                                    reconf[4] += 1;
+                                    c.close(0u32.into(), b"");
+                                }
+                                Err(e) => problems.push(format!("dialer claiming {p:?} with a certificate for {p:?} refused by a listener accepting {accb:?} ({e}); its session store held stale tickets")),
+                            }
+                            let _ = lb.net.disconnect(z);
+                            tokio::time::sleep(Duration::from_millis(50)).await;
+                        }
+                        _ => reconf[3] += 1,
+                    }
+                    drop(la_keep);
+                }
+            }
+        }
         // adversarial listener presenting a certificate for another name
         let d = rng.gen_range(0..n);
         for c in &names {
@@ -244,6 +341,11 @@ pub fn scenario(idx: usize, seed: u64) -> ScenarioResult {
             .count("honest_dials_refused", refused)
             .count("adversary_admitted_with_matching_names", adv_admitted)
             .count("adversary_refused", adv_refused)
+            .count("reconfiguration_phases", reconf[0])
+            .count("reconfiguration_tickets_stored", reconf[1])
+            .count("reconfiguration_tickets_offered_back", reconf[2])
+            .count("reconfiguration_phases_skipped", reconf[3])
+            .count("reconfiguration_legitimate_readmitted", reconf[4])
     })
 }
 
@@ -268,12 +370,12 @@ pub fn run(ctx: &Ctx) -> i32 {
         tier,
         seed: ctx.seed,
         level: "exploration",
-        rule: "verifier level: (accepted names, certificate name, dialed name) triples from a pool of 12 DNS-shaped names (prefixes/suffixes of one another, one character apart, dotted, long) against the model accept iff name in accepted (and cert name = dialed name for the server check). end to end: 3-5 real Networks with (primary, optional alternate) from a 3-name family, equal or different keys; every ordered pair dials (model: success iff dialer.primary in accepted(listener)); an adversarial dialer with every (hello name, certificate name) combination (model: admitted iff both accepted); an adversarial listener presenting every certificate name (model: success iff = dialer.primary). distinct by (n, alternates, outcome mix) The adversarial listener is dialed plainly and naming its real identity.".into(),
+        rule: "verifier level: (accepted names, certificate name, dialed name) triples from a pool of 12 DNS-shaped names (prefixes/suffixes of one another, one character apart, dotted, long) against the model accept iff name in accepted (and cert name = dialed name for the server check). end to end: 3-5 real Networks with (primary, optional alternate) from a 3-name family, equal or different keys; every ordered pair dials (model: success iff dialer.primary in accepted(listener)); an adversarial dialer with every (hello name, certificate name) combination (model: admitted iff both accepted); an adversarial listener presenting every certificate name (model: success iff = dialer.primary). distinct by (n, alternates, outcome mix) The adversarial listener is dialed plainly and naming its real identity. reconfiguration phase (every scenario): one private key serves [p,q] and then only [p(,r)] - restarted at the same address, restarted elsewhere, or as a second live endpoint; an adversary admitted by the first configuration with a certificate for q keeps its TLS session store (tickets stored / offered back are counted) and returns claiming p (model: refused, not listed, not announced), then with a certificate for p (model: admitted).".into(),
         assumptions: vec!["upper/lower-case variants and wildcard certificates are not judged (the property does not say which comparison is intended)".into()],
         summary,
         extra: Default::default(),
         exhaustive: None,
         min_signatures: 8,
-        required_counters: vec!["verifier_name_checks", "verifier_name_accepts", "honest_dials_ok", "honest_dials_refused", "adversary_admitted_with_matching_names", "adversary_refused"],
+        required_counters: vec!["verifier_name_checks", "verifier_name_accepts", "honest_dials_ok", "honest_dials_refused", "adversary_admitted_with_matching_names", "adversary_refused", "reconfiguration_phases", "reconfiguration_tickets_stored", "reconfiguration_tickets_offered_back", "reconfiguration_legitimate_readmitted"],
     })
 }
